@@ -64,9 +64,23 @@ def gen_one(rng):
     return case
 
 
+def directed(rng):
+    """A case aimed at hooks whose spans stay open across awaits while other scenarios get their first poll: logging before hooks
+    that suspend for different numbers of polls (`stagger`), several scenarios in flight."""
+    case = gen_one(rng)
+    while len(case["scenarios"]) < 3:
+        case = gen_one(rng)
+    case["concurrency"] = rng.choice([None, 4, 8])
+    case["hooks"] = dict(before=[rng.choice([1, 2]), rng.choice([1, 2]), rng.choice([0, 1])], after=None, stagger=True)
+    return case
+
+
 def gen(rng, tier):
     n = 400 if tier == "thorough" else 48
-    return [gen_one(rng) for _ in range(n)]
+    # the directed cases come from their own generator state, so that adding an option to `gen_one` does not reshuffle them
+    cases = [gen_one(rng) for _ in range(n)]
+    drng = __import__("random").Random(rng.randrange(1 << 30))
+    return cases + [directed(drng) for _ in range(n // 4)]
 
 
 ATTR_KINDS = ("newspan", "spansid", "fmt", "reg", "regretry", "unreg")
